@@ -28,7 +28,118 @@ Proof.
   exists r. unfold anchor_of. rewrite H. reflexivity.
 Qed.
 
+(* ---------------------------------------------------------------- the rules read from the source
+   Gen/HeaderRowParams.v is regenerated from src/stingray/workbook.py and schema_instance.py on every run
+   (harness/t1_workbook.py).  The lemmas of this section say which rules the proofs below rely on; each is
+   closed by computation on the regenerated values, so an edit of the rule in the source stops it (and with
+   it Props/C09.vo, Props/C03.vo, Props/C10.vo) from compiling. *)
+Definition k_title : key := [116; 105; 116; 108; 101]%N.
+Definition k_anchor : key := [36; 97; 110; 99; 104; 111; 114]%N.
+Definition k_type : key := [116; 121; 112; 101]%N.
+Definition k_string : key := [115; 116; 114; 105; 110; 103]%N.
+Definition k_conversion : key := [99; 111; 110; 118; 101; 114; 115; 105; 111; 110]%N.
+
+(* HeadingRowSchemaLoader.header: the property of a heading is keyed by str(heading) and gets
+   title = the heading, $anchor = name_cleaner(str(heading)), type string, position = the enumerate counter,
+   counted from 0; an empty sheet gives no schema *)
+Lemma rule_heading_property :
+  hdr_key = E_str E_item
+  /\ hdr_props = [(k_title, E_item); (k_anchor, E_clean (E_str E_item)); (k_type, E_text k_string); (k_position, E_count)].
+Proof. split; reflexivity. Qed.
+
+Lemma rule_heading_enumerate : hdr_enum_start = 0.
+Proof. reflexivity. Qed.
+
+Lemma rule_heading_empty_sheet : hdr_on_empty = None.
+Proof. reflexivity. Qed.
+
+(* SchemaLoader.body, and the body() HeadingRowSchemaLoader uses, return the source unchanged *)
+Lemma rule_body l (src : sheet) : body l src = src.
+Proof. destruct l; reflexivity. Qed.
+
+Lemma rule_body_kind {I} (keep : body_pred -> I -> bool) l (src : list I) : body_rows keep (body_kind_of l) src = src.
+Proof. destruct l; reflexivity. Qed.
+
+Lemma rule_body_base {I} (keep : body_pred -> I -> bool) (src : list I) : body_rows keep body_base src = src.
+Proof. reflexivity. Qed.
+
+(* Sheet.row_iter: header() first, body() on the SAME iterator (what header left), the schema header built is
+   bound when there is one (otherwise the bound schema stays), every instance one Row *)
+Lemma rule_row_iter {S I} keep (hdr : list I -> res (option S * list I)) bk preset src :
+  sheet_row_iter keep hdr bk preset src
+  = bind (hdr src) (fun hr =>
+      let sch := match fst hr with Some s => Some s | None => preset end in
+      let rows := body_rows keep bk (snd hr) in
+      match rows, sch with
+      | _ :: _, None => Err AttributeError
+      | _, _ => Ok (sch, rows)
+      end).
+Proof.
+  unfold sheet_row_iter. destruct (hdr src) as [[[s|] rest]|e]; [| |reflexivity]; cbn [bind fst snd].
+  - change ri_rows with B_source. change ri_same_iterator with true. cbn [body_rows].
+    destruct (body_rows keep bk rest); reflexivity.
+  - change ri_guard with G_truthy. change ri_rows with B_source. change ri_same_iterator with true.
+    cbn [bind fst snd body_rows]. destruct (body_rows keep bk rest), preset; reflexivity.
+Qed.
+
+(* Sheet.set_schema installs the do-nothing loader *)
+Lemma rule_set_schema st s : bind_step st (SetSchema s) = (NoLoader, Some s).
+Proof. reflexivity. Qed.
+
+(* WBNav.name: the position attribute whenever the property HAS one (position 0 included), otherwise the
+   index of the name among the properties; a missing cell is the [None] marker *)
+Lemma rule_position s k e :
+  position_of s k e = match e_pos e with Some p => p | None => key_index (keys s) k end.
+Proof. unfold position_of. destruct (e_pos e); reflexivity. Qed.
+
+Lemma rule_absent : absent_result = Ok None.
+Proof. reflexivity. Qed.
+
+Lemma rule_position_keyword : nav_pos_attr = k_position.
+Proof. reflexivity. Qed.
+
+Lemma nav_name_unfold s k r :
+  nav_name s k r
+  = match find_entry s k with
+    | None => Err KeyError
+    | Some e =>
+        let position := match e_pos e with Some p => p | None => key_index (keys s) k end in
+        match nth_error r position with
+        | Some c => Ok (Some c)
+        | None => Ok None
+        end
+    end.
+Proof. unfold nav_name. destruct (find_entry s k) as [e|]; [|reflexivity]. rewrite rule_position, rule_absent. reflexivity. Qed.
+
+(* Row.values: one value per schema property, in property order *)
+Lemma rule_values s r : values s r = collect (map (fun k => nav_name s k r) (keys s)).
+Proof. reflexivity. Qed.
+
+(* ExternalSchemaLoader.load: the property of a row is keyed by its name cell and reads the three attributes
+   name, description, dataType; position = the enumerate counter, counted from 0; META_SCHEMA puts them in
+   columns 0, 1, 2 *)
+Lemma rule_external_property :
+  ext_key = E_field k_name
+  /\ ext_props = [(k_title, E_field k_name); (k_anchor, E_clean (E_field k_name)); (k_type, E_text k_string);
+                  (k_position, E_count); (k_description, E_field k_description); (k_conversion, E_field k_dataType)].
+Proof. split; reflexivity. Qed.
+
+Lemma rule_external_enumerate : ext_enum_start = 0.
+Proof. reflexivity. Qed.
+
+Lemma rule_meta_schema :
+  meta_schema = [mk_entry k_name (Some 0); mk_entry k_description (Some 1); mk_entry k_dataType (Some 2)].
+Proof. reflexivity. Qed.
+
 (* ---------------------------------------------------------------- the header comprehension *)
+Lemma header_item_ok n c : header_item n c = Ok (mk_entry (str_of c) (Some n)).
+Proof.
+  unfold header_item, comp_item. destruct rule_heading_property as [-> ->].
+  cbn [eval eval_props bind en_item en_count str_val].
+  destruct (anchor_ok (str_of c)) as [a Ha]. rewrite Ha.
+  cbn [bind key_of_val]. reflexivity.
+Qed.
+
 Fixpoint positioned (n : nat) (ks : list key) : list entry :=
   match ks with
   | [] => []
@@ -38,9 +149,8 @@ Fixpoint positioned (n : nat) (ks : list key) : list entry :=
 Lemma header_entries_ok first : forall n,
   header_entries n first = Ok (positioned n (map str_of first)).
 Proof.
-  induction first as [|c t IH]; intros n; simpl; [reflexivity|].
-  destruct (anchor_ok (str_of c)) as [a Ha]. rewrite Ha. simpl.
-  rewrite IH. reflexivity.
+  induction first as [|c t IH]; intros n; cbn [header_entries map positioned]; [reflexivity|].
+  rewrite header_item_ok. cbn [bind]. rewrite IH. reflexivity.
 Qed.
 
 Lemma keys_positioned ks : forall n, keys (positioned n ks) = ks.
@@ -132,7 +242,7 @@ Definition by_index (s : schema) : Prop :=
   forall i e, nth_error s i = Some e -> e_pos e = None \/ e_pos e = Some i.
 
 Lemma nav_missing s k r : ~ In k (keys s) -> nav_name s k r = Err KeyError.
-Proof. intros H. unfold nav_name. rewrite find_entry_none; [reflexivity|exact H]. Qed.
+Proof. intros H. rewrite nav_name_unfold. rewrite find_entry_none; [reflexivity|exact H]. Qed.
 
 Lemma nav_by_index s i k r :
   by_index s -> nth_error (keys s) i = Some k -> nav_name s k r = Ok (nth_error r i).
@@ -145,7 +255,7 @@ Proof.
     - exfalso. apply nth_error_None in E.
       assert (nth_error (map e_key s) i = None) as H0 by (apply nth_error_None; rewrite map_length; exact E).
       rewrite H0 in Hk. discriminate. }
-  subst k. unfold nav_name. rewrite (find_entry_nth s i e Hnd He).
+  subst k. rewrite nav_name_unfold. rewrite (find_entry_nth s i e Hnd He). cbv zeta.
   assert ((match e_pos e with Some p => p | None => key_index (keys s) (e_key e) end) = i) as ->.
   { destruct (Hpos i e He) as [Hp|Hp]; rewrite Hp.
     - apply key_index_nth; assumption.
@@ -191,7 +301,7 @@ Qed.
 Lemma values_by_index s r :
   by_index s -> values s r = Ok (cells_in_header_order (length s) r).
 Proof.
-  intros Hs. unfold values.
+  intros Hs. rewrite rule_values.
   rewrite (collect_map_ok _ (fun k => nth_error r (key_index (keys s) k))).
   - f_equal. rewrite <- map_map. rewrite map_key_index_seq; [|exact (proj1 Hs)].
     unfold keys. rewrite map_length. apply cells_by_seq.
@@ -234,7 +344,7 @@ Qed.
 (* ---------------------------------------------------------------- the heading row *)
 Lemma header_schema_ok first :
   header_schema first = Ok (dict_of (positioned 0 (map str_of first))).
-Proof. unfold header_schema. rewrite header_entries_ok. reflexivity. Qed.
+Proof. unfold header_schema. rewrite rule_heading_enumerate, header_entries_ok. reflexivity. Qed.
 
 Lemma header_schema_nodup first :
   NoDup (map str_of first) -> header_schema first = Ok (positioned 0 (map str_of first)).
@@ -247,23 +357,24 @@ Qed.
 Lemma rows_tl (sh : sheet) pre :
   exists os, row_iter HeadingRow pre sh = Ok (os, data_rows sh).
 Proof.
-  destruct sh as [|first rest]; unfold row_iter, data_rows; simpl.
-  - exists pre. destruct pre; reflexivity.
-  - rewrite header_schema_ok. simpl. eexists. destruct rest; reflexivity.
+  destruct sh as [|first rest]; unfold row_iter, data_rows; rewrite rule_row_iter; cbn [header tl].
+  - rewrite rule_heading_empty_sheet. exists pre. destruct pre; reflexivity.
+  - rewrite header_schema_ok. cbn [bind fst snd]. rewrite rule_body_kind. eexists. destruct rest; reflexivity.
 Qed.
 
 Lemma rows_schema first rest pre :
   exists s, header_schema first = Ok s /\ row_iter HeadingRow pre (first :: rest) = Ok (Some s, rest).
 Proof.
   eexists. split; [apply header_schema_ok|].
-  unfold row_iter. simpl. rewrite header_schema_ok. simpl. destruct rest; reflexivity.
+  unfold row_iter. rewrite rule_row_iter. cbn [header]. rewrite header_schema_ok. cbn [bind fst snd].
+  rewrite rule_body_kind. destruct rest; reflexivity.
 Qed.
 
 Lemma rows_empty pre : row_iter HeadingRow pre [] = Ok (pre, []).
-Proof. unfold row_iter. simpl. destruct pre; reflexivity. Qed.
+Proof. unfold row_iter. rewrite rule_row_iter. cbn [header]. rewrite rule_heading_empty_sheet. destruct pre; reflexivity. Qed.
 
 Lemma rows_noloader s (data : sheet) : row_iter NoLoader (Some s) data = Ok (Some s, data).
-Proof. unfold row_iter. simpl. destruct data; reflexivity. Qed.
+Proof. unfold row_iter. rewrite rule_row_iter. cbn [header bind fst snd]. rewrite rule_body_kind. destruct data; reflexivity. Qed.
 
 Lemma by_name first s r i c :
   header_schema first = Ok s -> NoDup (map str_of first) -> nth_error first i = Some c ->
@@ -388,23 +499,38 @@ Qed.
 (* ---------------------------------------------------------------- the external schema *)
 Lemma nav_meta_name r : nav_name meta_schema k_name r = Ok (nth_error r 0).
 Proof.
-  unfold nav_name.
-  change (find_entry meta_schema k_name) with (Some (mk_entry k_name (Some 0))).
+  rewrite nav_name_unfold, rule_meta_schema.
+  change (find_entry [mk_entry k_name (Some 0); mk_entry k_description (Some 1); mk_entry k_dataType (Some 2)] k_name)
+    with (Some (mk_entry k_name (Some 0))).
   cbn [e_pos]. destruct (nth_error r 0); reflexivity.
 Qed.
 
 Lemma nav_meta_description r : nav_name meta_schema k_description r = Ok (nth_error r 1).
 Proof.
-  unfold nav_name.
-  change (find_entry meta_schema k_description) with (Some (mk_entry k_description (Some 1))).
+  rewrite nav_name_unfold, rule_meta_schema.
+  change (find_entry [mk_entry k_name (Some 0); mk_entry k_description (Some 1); mk_entry k_dataType (Some 2)] k_description)
+    with (Some (mk_entry k_description (Some 1))).
   cbn [e_pos]. destruct (nth_error r 1); reflexivity.
 Qed.
 
 Lemma nav_meta_dataType r : nav_name meta_schema k_dataType r = Ok (nth_error r 2).
 Proof.
-  unfold nav_name.
-  change (find_entry meta_schema k_dataType) with (Some (mk_entry k_dataType (Some 2))).
+  rewrite nav_name_unfold, rule_meta_schema.
+  change (find_entry [mk_entry k_name (Some 0); mk_entry k_description (Some 1); mk_entry k_dataType (Some 2)] k_dataType)
+    with (Some (mk_entry k_dataType (Some 2))).
   cbn [e_pos]. destruct (nth_error r 2); reflexivity.
+Qed.
+
+(* one row of the metadata sheet under META_SCHEMA: a text name cell gives the property, anything else TypeError *)
+Lemma ext_entry_meta n r :
+  ext_entry meta_schema n r
+  = match nth_error r 0 with Some (Txt t) => Ok (mk_entry t (Some n)) | _ => Err TypeError end.
+Proof.
+  unfold ext_entry, comp_item. destruct rule_external_property as [-> ->].
+  cbn [eval eval_props bind en_item en_count en_field].
+  rewrite nav_meta_name, nav_meta_description, nav_meta_dataType. cbn [bind].
+  destruct (nth_error r 0) as [[t|id rp]|]; [|reflexivity|reflexivity].
+  destruct (anchor_ok t) as [a Ha]. rewrite Ha. cbn [bind key_of_val]. reflexivity.
 Qed.
 
 Lemma ext_entries_ok meta : forall names n,
@@ -417,9 +543,7 @@ Proof.
     destruct (first_cells meta) as [cs|] eqn:E; [|discriminate].
     simpl in H. injection H as H. destruct names as [|k names]; [discriminate|].
     simpl in H. injection H as -> ->.
-    cbn [ext_entries]. unfold ext_entry.
-    rewrite nav_meta_name, nav_meta_description, nav_meta_dataType. cbn [nth_error bind].
-    destruct (anchor_ok k) as [a Ha]. rewrite Ha. cbn [bind].
+    cbn [ext_entries]. rewrite ext_entry_meta. cbn [nth_error bind].
     rewrite (IH names (S n) eq_refl). reflexivity.
 Qed.
 
@@ -428,7 +552,7 @@ Lemma ext_load_ok meta names :
   ext_load_meta meta = Ok (dict_of (positioned 0 names)).
 Proof.
   intros H. unfold ext_load_meta, ext_load. rewrite rows_noloader. cbn [bind fst snd].
-  rewrite (ext_entries_ok meta names 0 H). reflexivity.
+  rewrite rule_external_enumerate, (ext_entries_ok meta names 0 H). reflexivity.
 Qed.
 
 Lemma ext_load_nodup meta names :
@@ -442,16 +566,14 @@ Qed.
 (* a row of the metadata sheet without a text first cell makes load() raise TypeError *)
 Lemma ext_load_bad_row meta : first_cells meta = None -> ext_load_meta meta = Err TypeError.
 Proof.
-  intros H. unfold ext_load_meta, ext_load. rewrite rows_noloader. cbn [bind fst snd].
+  intros H. unfold ext_load_meta, ext_load. rewrite rows_noloader. cbn [bind fst snd]. rewrite rule_external_enumerate.
   assert (forall n, ext_entries meta_schema n meta = Err TypeError) as G.
   { induction meta as [|r meta IH]; intros n; [discriminate|].
     destruct r as [|c r].
-    - cbn [ext_entries]. unfold ext_entry. rewrite nav_meta_name. reflexivity.
+    - cbn [ext_entries]. rewrite ext_entry_meta. reflexivity.
     - simpl in H. destruct (first_cells meta) as [cs|] eqn:E; [discriminate|].
-      cbn [ext_entries]. unfold ext_entry.
-      rewrite nav_meta_name, nav_meta_description, nav_meta_dataType. cbn [nth_error bind].
-      destruct c as [t|id rp]; [|reflexivity].
-      destruct (anchor_ok t) as [a Ha]. rewrite Ha. cbn [bind].
+      cbn [ext_entries]. rewrite ext_entry_meta. cbn [nth_error].
+      destruct c as [t|id rp]; [|reflexivity]. cbn [bind].
       rewrite (IH eq_refl). reflexivity. }
   rewrite G. reflexivity.
 Qed.
@@ -542,7 +664,7 @@ Qed.
 (* ---------------------------------------------------------------- binding calls: the last one wins *)
 Lemma binding_last_schema bs s src :
   read_after (bs ++ [SetSchema s]) src = row_iter NoLoader (Some s) src.
-Proof. unfold read_after, bind_all. rewrite fold_left_app. reflexivity. Qed.
+Proof. unfold read_after, bind_all. rewrite fold_left_app. cbn [fold_left]. rewrite rule_set_schema. reflexivity. Qed.
 
 Lemma binding_last_loader bs l src :
   exists pre, read_after (bs ++ [SetLoader l]) src = row_iter l pre src.
@@ -595,7 +717,7 @@ Proof.
     destruct (nth_error decl i) as [[k0 p]|] eqn:E.
     + pose proof (eq_trans (eq_sym Hi) (map_nth_error fst i decl E)) as Hk. simpl in Hk. injection Hk as ->.
       rewrite (declared_position_nth decl i k0 p Hnd E). simpl.
-      unfold nav_name.
+      rewrite nav_name_unfold.
       assert (nth_error (declared decl) i = Some (mk_entry k0 (Some p))) as He.
       { unfold declared. rewrite (map_nth_error _ i decl E). reflexivity. }
       pose proof (find_entry_nth (declared decl) i _ (eq_ind_r (fun l => NoDup l) Hnd (keys_declared decl)) He) as Hf.
